@@ -96,10 +96,16 @@ def explore(tier, seed, model_ok=True, focus=False):
         ex.counters[k] = ex.counters.get(k, 0) + v
     from props.farm_locked_common import explore_locked, merge_into, monitors_c06, nontrivial_c06
     ex3 = explore_locked("C06", tier, seed, monitors_c06, nontrivial_c06, RULE, model_ok, focus, scale=0.5)
-    return merge_into(ex, ex3)
+    ex = merge_into(ex, ex3)
+    from props import staking_pos_common as spc
+    ex4 = spc.explore_staking_pos("C06", tier, seed, spc.monitors_c06, spc.nontrivial_c06, spc.RULE, model_ok, focus, scale=0.5)
+    return spc.merge_exploration(ex, ex4)
 
 
 def replay(data):
+    if data.get("replay", {}).get("system") == "stakingpos":
+        from props import staking_pos_common as spc
+        return spc.replay_staking_pos(data, spc.monitors_c06)
     if data.get("replay", {}).get("system") == "farm-locked":
         from props.farm_locked_common import replay_locked, monitors_c06
         return replay_locked(data, monitors_c06)
